@@ -280,6 +280,13 @@ def bin_sem(sym, l, r, lsf, rsf):
     if sym in ("/", "%"):
         # fixed-width division of the two readings: truncating quotient, remainder with
         # the sign of the dividend (SMT-LIB bvsdiv/bvsrem, bvudiv/bvurem when unsigned)
+        if not lsf and not rsf:
+            # both readings unsigned: same function (also for a zero divisor), cheaper term
+            return z3.UDiv(l, r) if sym == "/" else z3.URem(l, r)
+        if lsf and rsf:
+            # both signed: bvsdiv/bvsrem at w bits agree with the truncated (w+2)-bit result,
+            # including INT_MIN/-1 (wraps) and a zero divisor
+            return (l / r) if sym == "/" else z3.SRem(l, r)
         a, b = ext_signed(l, lsf, w + 2), ext_signed(r, rsf, w + 2)
         q = a / b
         m = z3.SRem(a, b)
@@ -465,3 +472,74 @@ def model_regs(m, c):
     for (name, size), t in c.regs.items():
         out["%s:%d" % (name, size)] = m.eval(t, model_completion=True).as_long()
     return out
+
+
+# ---------------------------------------------------------------------------
+# uninterpreted abstraction of non-linear arithmetic
+#
+# Equivalence of two terms that both contain a wide symbolic-by-symbolic
+# multiplication/division is out of reach of bit-blasting (128-bit products).
+# Replacing every such operation by an uninterpreted function of its (abstracted)
+# arguments is SOUND for proving equality: unsat under the abstraction implies
+# unsat for the real operators.  A 'sat' under the abstraction proves nothing
+# and the caller falls back to the exact query.
+
+_NL_KINDS = {
+    z3.Z3_OP_BMUL: "mul",
+    z3.Z3_OP_BUDIV: "udiv", z3.Z3_OP_BUDIV_I: "udiv",
+    z3.Z3_OP_BUREM: "urem", z3.Z3_OP_BUREM_I: "urem",
+    z3.Z3_OP_BSDIV: "sdiv", z3.Z3_OP_BSDIV_I: "sdiv",
+    z3.Z3_OP_BSREM: "srem", z3.Z3_OP_BSREM_I: "srem",
+}
+
+
+class NLAbstraction:
+    def __init__(self):
+        self.memo = {}
+        self.funcs = {}
+        self.axioms = []
+        self.count = 0
+
+    def _f(self, name, w):
+        k = (name, w)
+        if k not in self.funcs:
+            s = z3.BitVecSort(w)
+            self.funcs[k] = z3.Function("nl_%s_%d" % (name, w), s, s, s)
+        return self.funcs[k]
+
+    def __call__(self, t):
+        i = t.get_id()
+        if i in self.memo:
+            return self.memo[i]
+        if z3.is_app(t) and t.num_args() > 0:
+            ch = [self(x) for x in t.children()]
+            kind = t.decl().kind()
+            name = _NL_KINDS.get(kind)
+            if name is not None:
+                sym = [x for x in ch if not z3.is_bv_value(x)]
+                if name == "mul":
+                    if len(sym) >= 2:
+                        csts = [x for x in ch if z3.is_bv_value(x)]
+                        f = self._f("mul", t.size())
+                        acc = sym[0]
+                        for x in sym[1:]:
+                            new = f(acc, x)
+                            self.axioms.append(new == f(x, acc))
+                            acc = new
+                            self.count += 1
+                        for x in csts:
+                            acc = acc * x
+                        r = acc
+                    else:
+                        r = t.decl()(*ch)
+                elif not z3.is_bv_value(ch[1]):
+                    r = self._f(name, t.size())(ch[0], ch[1])
+                    self.count += 1
+                else:
+                    r = t.decl()(*ch)
+            else:
+                r = t.decl()(*ch)
+        else:
+            r = t
+        self.memo[i] = r
+        return r
